@@ -262,7 +262,11 @@ def mt4(F, R):
     from .ev import specialise_enum, resolve_bool_temps
     th = S["fat_type_thresholds"]
     lo, hi = th["fat12_below"], th["fat16_below"]
-    is_cc = lambda q: q[0] == "place" and q[2] and q[2][-1] == "cluster_count"
+    # the cluster count is the field - or the value that is stored into it, when the tests read it from a local
+    cc_vals = [strip_refs(cb.term_of_rvalue(s_["rv"], b)) for b, i, s_ in cb.stmts()
+               if s_["k"] == "Assign" and s_["p"]["proj"] and s_["p"]["proj"][-1][0] == "field" and s_["p"]["proj"][-1][2] == "cluster_count"]
+    cc_vals = [t for t in cc_vals if t[0] != "c"]
+    is_cc = lambda q: (q[0] == "place" and q[2] and q[2][-1] == "cluster_count") or q in cc_vals
     is_ft = lambda q: q[0] == "place" and q[2] and q[2][-1] == "fat_type"
     call_is = lambda nm: (lambda q: q[0] == "call" and q[1] and q[1].endswith(nm))
     cmpc = compared_constants(cb, is_cc)
